@@ -21,6 +21,7 @@ import geodepy.angles as ga
 import geodepy.constants as gc
 import geodepy.coord as gco
 from geodepy.convert import geo2grid, grid2geo, llh2xyz, xyz2llh
+from gpmc import cfg as xcfg
 from gpmc import oracle_tm, oracle_misc as om, oracle_geod as og
 from gpmc.checks import c08
 from gpmc.core import Sub, HarnessError
@@ -63,7 +64,8 @@ def ang_key(a):
 
 
 def dec_of(a):
-    return float(a) if type(a) is float else a.dec()
+    """decimal degrees the angle denotes, read from its public fields (never through the library's own dec())"""
+    return float(a) if type(a) is float else xcfg.denote(a)
 
 
 def to_notation(dec, kname):
@@ -197,7 +199,43 @@ def check_edge(rec, label, o, r, cfg, fail):
             fail('CoordTM.cart differs from geo().cart()', repr(r), repr(exp))
 
 
+PUBLIC = {gco.CoordGeo: ['lat', 'lon', 'ell_ht', 'orth_ht'], gco.CoordCart: ['xaxis', 'yaxis', 'zaxis', 'nval'],
+          gco.CoordTM: ['zone', 'east', 'north', 'ell_ht', 'orth_ht', 'hemi_north', 'projection']}
+
+
 def build(start, cfg):
+    """start['form']: None      the object as constructed
+                      'updated' an object constructed for ANOTHER point, used, and then updated through its public fields
+                      'edited'  (DMS / DDM notations) the angle objects it holds edited in place to the new position"""
+    o = build0(start, cfg)
+    form = start.get('form')
+    if not form:
+        return o
+    other = dict(start, pos=[start['pos'][0] + 0.25, start['pos'][1] + 0.3], h=17.0, H=3.0, nval=2.0)
+    if start['rep'] == 'tmfixed':
+        other['grid'] = [start['grid'][0], start['grid'][1] + 1234.5, start['grid'][2] - 4321.0, start['grid'][3]]
+    o2 = build0(other, cfg)
+    for label, fn in transitions(o2, cfg):          # the object has been used before it changes
+        try:
+            fn()
+        except Exception:
+            pass
+    repr(o2), o2 == o2
+    if form == 'updated':
+        for f in PUBLIC[type(o)]:
+            setattr(o2, f, getattr(o, f))
+        return o2
+    if form == 'edited':
+        for f in ('lat', 'lon'):
+            src, dst = getattr(o, f), getattr(o2, f)
+            for g in (['degree', 'minute', 'second', 'positive'] if isinstance(src, ga.DMSAngle) else ['degree', 'minute', 'positive']):
+                setattr(dst, g, getattr(src, g))
+        o2.ell_ht, o2.orth_ht = o.ell_ht, o.orth_ht
+        return o2
+    raise HarnessError('unknown form %r' % form)
+
+
+def build0(start, cfg):
     ell, prj = CONFIGS[cfg]
     E, P = ELL[ell], PRJ[prj]
     rep = start['rep']
@@ -231,6 +269,15 @@ def gen(tier, seed):
                     yield {'cfg': cfg, 'rep': 'cart', 'pos': list(pos), 'h': h, 'H': None, 'nval': nv, 'depth': depth}
             for (h, H) in ((None, None), (0.0, 5.0), (-12.5, 0.0), (603.2489, 588.9799)):
                 yield {'cfg': cfg, 'rep': 'tm', 'pos': list(pos), 'h': h, 'H': H, 'depth': depth}
+    # coordinate objects that were updated after construction (a survey mark whose position is refined; an object reused
+    # for the next point of a list): conversions must describe the CURRENT fields
+    for cfg in CONFIGS:
+        poss = POS_ISG[:2] if cfg == 'ans-isg' else [POS_ANY[0], POS_ANY[2], POS_ANY[5]]
+        for pos in poss:
+            for rep, form in (('geo:float', 'updated'), ('geo:dms', 'updated'), ('geo:hpa', 'updated'), ('geo:dms', 'edited'), ('geo:ddm', 'edited'),
+                              ('cart', 'updated'), ('tm', 'updated')):
+                yield {'cfg': cfg, 'rep': rep, 'pos': list(pos), 'h': 603.2489, 'H': None if rep == 'cart' else 588.9799, 'nval': 14.269,
+                       'depth': 2, 'form': form}
     # the SAME grid numbers interpreted on two ellipsoids within one process, in both orders
     for a, b in (('grs80-utm', 'ans-utm'), ('ans-utm', 'grs80-utm')):
         for grid in ([55, 300000.0, 6200000.0, False], [31, 612345.6789, 1234567.891, True]):
